@@ -29,8 +29,12 @@ CONSTANTS
     MaxStops,       \* StopPipeline calls (each followed by a StartPipeline)
     MaxResets,      \* ResetPipeline calls
     MaxRestarts,    \* Manager.Stop + new Manager.Run
-    JoinSubscriber, \* FALSE = the code as it is.  TRUE = design variant: a pipeline
-                    \*   stop waits until its subscriber has stored what it was handed
+    JoinSubscriber, \* TRUE = the code as it is since /repo 9ae9635: Run's goroutine closes the
+                    \*   subscription as soon as Run returns and stopPipeline waits (<-handler.drained)
+                    \*   until the subscriber has stored what it was handed.  FALSE = the code before
+                    \*   that repair (close(subscription) deferred under mu, nobody waits for the
+                    \*   subscriber): kept as the negative-control model, its counterexamples must
+                    \*   not be reproducible on the code any more
     Mutant,         \* "none" | "SubAhead" | "SkipLog" | "AdvanceOnFail" (negative controls)
     LateAccepts,    \* TRUE: an Accept call in flight when its pipeline stops may still reach the exporter
     RecordHist      \* TRUE: hist records the schedule (use with VIEW ViewNoHist)
@@ -61,7 +65,7 @@ ViewNoHist == <<produced, persisted, mu, alive, running, mgr, pipe, ep,
 bounds == <<nFail, nStops, nResets, nRestarts>>
 obs    == <<gotEver, gotSince, contig, startOK>>
 
-NoMgr  == [op |-> "none", pc |-> "none", loc |-> 0, was |-> FALSE]
+NoMgr  == [op |-> "none", pc |-> "none", loc |-> 0, was |-> FALSE, se |-> 0]
 NoPipe == [st |-> "none", e |-> 0, last |-> 0, from |-> 0, to |-> 0, stopReq |-> FALSE]
 
 (* ep[e]: sub/val = subscriber goroutine ("idle" | "storing" the value val);      *)
@@ -175,16 +179,19 @@ Handoff ==
 (* every select of Run; in state "acked" the select may pick either branch.  *)
 (* If the Accept goroutine is still out (state "fetched"), its call may reach *)
 (* the exporter later (ep[e].late).  Shutdown() returns in the manager.      *)
+(* JoinSubscriber: the goroutine that ran Run closes the subscription at once *)
+(* (no mutex needed); the manager then waits for the subscriber (Drained).    *)
 PipeTakeStop ==
     /\ pipe.stopReq
     /\ pipe.st \in {"idle", "fetched", "retry", "acked"}
-    /\ JoinSubscriber => ep[pipe.e].sub = "idle"
     /\ mgr.pc = "wait"
-    /\ mgr' = [mgr EXCEPT !.pc = "stopped"]
+    /\ mgr' = [mgr EXCEPT !.pc = "stopped", !.se = pipe.e]
     /\ ep' = IF pipe.st = "fetched" /\ LateAccepts
                THEN [ep EXCEPT ![pipe.e].closing = TRUE, ![pipe.e].late = TRUE,
+                               ![pipe.e].open = ~JoinSubscriber,
                                ![pipe.e].lfrom = pipe.from, ![pipe.e].lto = pipe.to]
-               ELSE [ep EXCEPT ![pipe.e].closing = TRUE, ![pipe.e].pos = 0]
+               ELSE [ep EXCEPT ![pipe.e].closing = TRUE, ![pipe.e].pos = 0,
+                               ![pipe.e].open = ~JoinSubscriber]
     /\ pipe' = NoPipe
     /\ Rec(H("TakeStop", pipe.e, 0, 0))
     /\ UNCHANGED <<produced, persisted, mu, alive, running, bounds, obs>>
@@ -227,7 +234,10 @@ SubStore(e) ==
 
 BeginOp(op, pc, was) ==
     /\ mu' = "mgr"
-    /\ mgr' = [op |-> op, pc |-> pc, loc |-> 0, was |-> was]
+    /\ mgr' = [op |-> op, pc |-> pc, loc |-> 0, was |-> was, se |-> 0]
+
+(* stopPipeline: `<-handler.drained` after Shutdown (mgr.se = the epoch that was stopped) *)
+Drained == IF JoinSubscriber /\ mgr.se # 0 THEN ep[mgr.se].sub = "idle" ELSE TRUE
 
 AskStop == pipe' = [pipe EXCEPT !.stopReq = TRUE]   \* handler.Shutdown: stopChannel <- ch
 
@@ -261,6 +271,7 @@ MgrStopBegin ==
 
 MgrStopEnd ==   \* delete(m.pipelines, id); stopExporterIfNeeded; unlock
     /\ mgr.op = "stop" /\ mgr.pc = "stopped"
+    /\ Drained
     /\ running' = FALSE
     /\ mu' = "free"
     /\ mgr' = NoMgr
@@ -271,7 +282,7 @@ MgrStopEnd ==   \* delete(m.pipelines, id); stopExporterIfNeeded; unlock
 MgrStartRead ==
     /\ alive /\ mgr.op = "none" /\ mu = "free" /\ ~running
     /\ mu' = "mgr"
-    /\ mgr' = [op |-> "start", pc |-> "read", loc |-> persisted, was |-> FALSE]
+    /\ mgr' = [op |-> "start", pc |-> "read", loc |-> persisted, was |-> FALSE, se |-> 0]
     /\ Rec(H("StartRead", 0, persisted, 0))
     /\ UNCHANGED <<produced, persisted, alive, running, pipe, ep, bounds, obs>>
 
@@ -288,13 +299,14 @@ MgrResetBegin ==
 
 MgrResetUpdate ==
     /\ mgr.op = "reset" /\ mgr.pc = "stopped"
+    /\ Drained
     /\ persisted' = 0
     /\ nResets' = nResets + 1
     /\ running' = FALSE
     /\ gotSince' = {}
     /\ ep' = [e \in DOMAIN ep |-> [ep[e] EXCEPT !.old = TRUE]]
     /\ IF mgr.was
-         THEN mgr' = [mgr EXCEPT !.pc = "read", !.loc = 0] /\ mu' = mu
+         THEN mgr' = [mgr EXCEPT !.pc = "read", !.loc = 0, !.se = 0] /\ mu' = mu
          ELSE mgr' = NoMgr /\ mu' = "free"
     /\ Rec(H("ResetUpdate", 0, 0, 0))
     /\ UNCHANGED <<produced, alive, pipe, nFail, nStops, nRestarts, gotEver, contig, startOK>>
@@ -313,9 +325,10 @@ MgrShutdownBegin ==
 
 MgrShutdownRelease ==
     /\ mgr.op = "shutdown" /\ mgr.pc = "stopped"
+    /\ Drained
     /\ running' = FALSE
     /\ mu' = "free"
-    /\ mgr' = [mgr EXCEPT !.pc = "drain"]
+    /\ mgr' = [mgr EXCEPT !.pc = "drain", !.se = 0]
     /\ Rec(H("ShutdownRelease", 0, 0, 0))
     /\ UNCHANGED <<produced, persisted, alive, pipe, ep, bounds, obs>>
 
@@ -333,7 +346,7 @@ MgrRunRead ==
     /\ ~alive /\ mgr.op = "none"
     /\ alive' = TRUE
     /\ mu' = "mgr"
-    /\ mgr' = [op |-> "run", pc |-> "read", loc |-> persisted, was |-> FALSE]
+    /\ mgr' = [op |-> "run", pc |-> "read", loc |-> persisted, was |-> FALSE, se |-> 0]
     /\ Rec(H("RunRead", 0, persisted, 0))
     /\ UNCHANGED <<produced, persisted, running, pipe, ep, bounds, obs>>
 
@@ -394,11 +407,10 @@ InternalEnabled ==
     \/ pipe.st = "acked"
     \/ pipe.st = "retry"
     \/ (pipe.st = "sending" /\ ep[pipe.e].sub = "idle")
-    \/ (pipe.stopReq /\ pipe.st \in {"idle", "fetched", "retry", "acked"} /\ mgr.pc = "wait"
-          /\ (JoinSubscriber => ep[pipe.e].sub = "idle"))
+    \/ (pipe.stopReq /\ pipe.st \in {"idle", "fetched", "retry", "acked"} /\ mgr.pc = "wait")
     \/ (mu = "free" /\ \E e \in DOMAIN ep : ep[e].closing)
-    \/ (mgr.op = "stop" /\ mgr.pc = "stopped")
-    \/ (mgr.op = "shutdown" /\ mgr.pc = "stopped")
+    \/ (mgr.op = "stop" /\ mgr.pc = "stopped" /\ Drained)
+    \/ (mgr.op = "shutdown" /\ mgr.pc = "stopped" /\ Drained)
     \/ (mgr.op = "shutdown" /\ mgr.pc = "drain" /\ \A e \in DOMAIN ep : ~ep[e].closing)
 
 UrgentInternal ==
